@@ -36,6 +36,12 @@ def main():
     sh(f"git -C /repo worktree remove --force {wt}")
     r = sh(f"git -C /repo worktree add -q {wt} HEAD")
     out = {"dir": d, "props": props, "tier": a.tier}
+    # the evidence files belong to runs against /repo itself: keep them, restore them afterwards
+    saved = {}
+    for p in props:
+        ef = os.path.join(VERIF, "evidence", f"{p}.json")
+        if os.path.exists(ef):
+            saved[ef] = open(ef).read()
     try:
         env = dict(os.environ, PYTHONPATH=f"{wt}/src")
         r0 = subprocess.run(["/venv/bin/python", os.path.join(d, "demo.py")], env=env, cwd=wt, stdout=subprocess.PIPE, stderr=subprocess.STDOUT, text=True, timeout=1800)
@@ -67,6 +73,8 @@ def main():
     finally:
         sh(f"git -C /repo worktree remove --force {wt}")
         sh(f"cd {VERIF} && /venv/bin/python tools/py2lean.py --repo /repo")
+        for ef, txt in saved.items():
+            open(ef, "w").write(txt)
         import glob
         for pr in props:
             for f in glob.glob(os.path.join(VERIF, "replays", f"{pr}-seed*.json")):
